@@ -239,3 +239,38 @@ Record raw_site := {
 
 Definition sink_in_tree_before_loop (s : sink) : bool :=
   match s with SinkCurrentNode | SinkRenderReturn => true | _ => false end.
+
+(* ---------------------------------------------------------------- settings hand-over table (Gen/SettingsSites.v) *)
+(* where the document / settings / state object that MyST hands to docutils code comes from *)
+Inductive prov :=
+| PMain        (* Parser.parse: parser.options["document"] = document, the document docutils created *)
+| POptions     (* setup_render: self.document = options.get("document", ...) *)
+| PRenderer    (* a mock's __init__: self.document = renderer.document *)
+| PSelf        (* a call that passes self.document *)
+| PSettings    (* render_restructuredtext: newdoc.settings = self.document.settings *)
+| PMock        (* a call that passes a mock built from the renderer *)
+| POther.      (* anything else *)
+
+Record settings_site := { ss_where : str; ss_prov : prov }.
+
+Definition prov_eqb (a b : prov) : bool :=
+  match a, b with
+  | PMain, PMain | POptions, POptions | PRenderer, PRenderer | PSelf, PSelf
+  | PSettings, PSettings | PMock, PMock | POther, POther => true
+  | _, _ => false
+  end.
+
+Definition has_prov (p : prov) (t : list settings_site) : bool :=
+  existsb (fun s => prov_eqb (ss_prov s) p) t.
+
+(* the settings object reachable from the object handed over at the site is the main document's:
+   the renderer's document is the main document (PMain + POptions); a mock's document is the
+   renderer's; the eval-rst document carries the renderer's document's settings object *)
+Definition site_shares_settings (t : list settings_site) (s : settings_site) : bool :=
+  match ss_prov s with
+  | PMain => true
+  | POptions => has_prov PMain t
+  | PRenderer | PSelf | PSettings => has_prov PMain t && has_prov POptions t
+  | PMock => has_prov PMain t && has_prov POptions t && has_prov PRenderer t && negb (has_prov POther t)
+  | POther => false
+  end.
